@@ -5,6 +5,8 @@ mod util;
 mod m_canon;
 mod m_depfile;
 mod m_render;
+mod m_sched;
+mod proj;
 
 use util::Ctx;
 
@@ -26,6 +28,7 @@ fn main() {
         "canon" => m_canon::run(&mut ctx),
         "depfile" => m_depfile::run(&mut ctx),
         "render" => m_render::run(&mut ctx),
+        "sched" => m_sched::run(&mut ctx),
         _ => {
             eprintln!("unknown mode {mode}");
             std::process::exit(2);
